@@ -44,3 +44,25 @@ claim("C06", "other",
       "taint-style who-assigns census + predicate folding on layout-derived lengths", "DESIGN.md §4 C06")
 for _p in ["C06", "C16"]:
     NA.pop(_p, None)
+claim("C02", "other",
+      "Stand-alone vs in-project writers compared as normalised row sequences (CVAL over the attached list, CMID over the same list, CHNK + specialised under the same guard); empty-synth refusal dominates all output; for all 11 classes with specialised chunks every writable chunk number (39 representative numbers incl. interval endpoints) is dispatched by load_chunk into the attribute it was written from, and every dispatched number is written; array-chunk codec constants; unit controllers before dependants under the reversed CVAL application; clone = write-then-read; drawn-waveform sign extension and omission/default; module header rows against ModuleReader; get_raw/set_raw paths, range inverse pairs and option pack/unpack shared from C05/C10/C11.",
+      "trusted: sa/chnm.py chunk-number interpreter (unmodelled writer constructs are reported as inconclusive), struct inverse",
+      "sibling comparison + chunk-number set containment + codec constant checks", "DESIGN.md §4 C02")
+claim("C03", "other",
+      "The writer's chunk table is checked against the RST format document and the YAML spec as independent oracles: per chunk id the layout must equal at least one source (58 rows), documented domains must be representable, documented chunks must all be written, emission order must contain both documented orders; container framing; SNAM = 32 by length-interval analysis, note cell = 8, CMID entry = 8 with documented field positions, PICO = 32; every writable CHNM < declared CHNK for 11 classes; sampler record = 400 bytes and 10 documented offsets. Symmetric writer/reader errors are visible because the oracle is the documentation.",
+      "trusted: RST/YAML as the description of the format (errata are listed, not hidden); sa/docs.py table parser",
+      "documentation-vs-code table diff + byte-length interval analysis", "DESIGN.md §4 C03")
+claim("C05", "other",
+      "Def-use over the CFG of set_raw/get_raw proves the stored value reaches the store only through from_raw_value on every path (incl. the lenient branch) and get_raw returns to_raw_value(attribute), which with C10's affine inverse gives get_raw(set_raw(r)) = r for all r; effect analysis over the 97-function call graph of save finds no store to / in-place mutation of public non-fresh state and no nondeterminism source; loading runs lenient. n-fold idempotence for arbitrary files depends on run-time values and is declined.",
+      "trusted: class-hierarchy call resolution (over-approximate), freshness idioms of DESIGN Appendix B",
+      "def-use must-pass-through + call-graph effect analysis", "DESIGN.md §4 C05")
+claim("C10", "proof",
+      "For each of the four range kinds, to_raw_value/from_raw_value are folded to affine forms under every sign/threshold case of the minimum and the identities to(v) = v − min (min < 0) / v, from∘to = id are discharged by exact polynomial equality (12 obligations, all values at once); pattern_value is normalised as a rational function on each of its 3 paths and compared with (v − min)·32768/(max − min) resp. v − min; get_raw/set_raw pass through the pair on every path; DependentRange.parent selects by the unit value. IEEE rounding of the float expression is declined.",
+      "trusted: sa/alg.py exact polynomial/rational arithmetic; ranges satisfy min ≤ max (checked over 603 controllers)",
+      "symbolic proof in an affine/rational domain with sign-case splitting", "DESIGN.md §4 C10")
+claim("C11", "proof",
+      "All 49 options of the 5 option-bearing classes: bit ranges disjoint and inside their byte; options_chunks∘load_options instantiated per option and evaluated in the bit domain — each read-back equals its own value masked to `size` and depends on no other option (49 obligations for all values of all options at once); record length covers the highest byte; descriptor algebra (inversion, exclusivity symmetry, clamp, bounds fit); declared bounds present on the generated class (spec diff).",
+      "trusted: sa/bits.py transfer functions; generated class constants folded from the AST",
+      "bit-vector abstract interpretation instantiated per option + spec diff", "DESIGN.md §4 C11")
+for _p in ["C02", "C03", "C05", "C10", "C11"]:
+    NA.pop(_p, None)
